@@ -402,7 +402,7 @@ MANIFEST = dict(
          'concurrent commit/undo/reader/second pack, the crash position (operation and tear) in the pack\'s multi-file operation '
          'log, and the failing operation are solver variables; each is exhausted within its bound and judged by the differential '
          'pack oracle of C07 plus presence of every returned commit.',
-    note='K <= 2 atomic injected operations at lock/file-operation granularity; one history and pack time; crash = prefix of the '
-         'operation log + torn write; Windows rename semantics and blob directories (C13) outside.',
+    note='K <= 2 atomic injected operations at lock/file-operation granularity (incl. one commit split into vote and finish); one history, pack time in its middle or after it; crash = prefix of the '
+         'operation log + torn write; Windows rename semantics and blob directories (C13) outside; 1 open known finding (crash between the two renames, shard band=-1).',
     design_ref='DESIGN.md section 4, C08',
 )
